@@ -246,23 +246,25 @@ func runC09burst(c *Ctx) {
 	}
 }
 
-// runC09duel: Get(k) against one concurrent writer on the same entry, then the quiescent state
-// (DuelTrace.tla).  One record per duel.
+// runC09duel: two goroutines make one call each on a one-entry cache, then the quiescent state
+// is observed (DuelTrace.tla).  One record per duel.
 func runC09duel(c *Ctx) {
 	procs := []int{2, 4, 8, 16}
 	nh := c.Pick(60000, 600000)
-	racers := []string{"remove", "put", "clear", "evict"}
+	pairs := [][2]string{{"get", "remove"}, {"get", "put"}, {"get", "clear"}, {"get", "evict"},
+		{"remove", "remove"}, {"remove", "put"}, {"put", "put"}, {"remove", "clear"}, {"remove", "evict"}, {"put", "clear"},
+		{"put", "evict"}, {"get", "get"}}
 	for i := 0; i < nh; i++ {
 		if i%4096 == 0 {
 			runtime.GOMAXPROCS(procs[(i/4096)%len(procs)])
 		}
-		racer := racers[i%4]
+		pr := pairs[i%len(pairs)]
 		k, k2 := 1+i%3, 7
-		v0, v1 := 10+i%5, 20+i%7
+		v0, va, vb := 10+i%5, 20+i%7, 30+i%3
 		var evs []int
 		var mu sync.Mutex
 		limit := 4
-		if racer == "evict" {
+		if pr[0] == "evict" || pr[1] == "evict" {
 			limit = 1
 		}
 		cc := cache.New(int64(limit), cache.LRU[int, cv]().OnEvict(func(_ int, v cv) {
@@ -271,41 +273,52 @@ func runC09duel(c *Ctx) {
 			mu.Unlock()
 		}))
 		cc.Put(k, cv{v0, 1})
-		ev := Ev{"op": "new", "racer": racer, "v0": v0, "v1": v1, "get": [3]int{-1, -1, -1}, "rres": -1,
-			"get2": [3]int{-1, -1, -1}, "has2": false, "len2": -1, "size2": -1, "evs": []int{}}
+		call := func(op string, v int) [3]int {
+			switch op {
+			case "get":
+				x, ok := cc.Get(k)
+				return [3]int{x.Tag, x.Size, b2i(ok)}
+			case "remove":
+				return [3]int{b2i(cc.Remove(k)), 0, 0}
+			case "put":
+				return [3]int{b2i(cc.Put(k, cv{v, 1})), 0, 0}
+			case "clear":
+				cc.Clear()
+			case "evict":
+				return [3]int{b2i(cc.Put(k2, cv{v, 1})), 0, 0}
+			}
+			return [3]int{0, 0, 0}
+		}
+		ev := Ev{"op": "new", "v0": v0, "a": map[string]any{"op": pr[0], "v": va}, "b": map[string]any{"op": pr[1], "v": vb},
+			"ra": [3]int{-1, -1, -1}, "rb": [3]int{-1, -1, -1}, "get2": [3]int{-1, -1, -1}, "has2": false, "len2": -1, "size2": -1, "evs": []int{}}
 		guard(ev, func() {
 			var wg sync.WaitGroup
-			var get [3]int
-			rres := -1
+			var ra, rb [3]int
+			pa, pb := false, false
 			start := make(chan struct{})
 			wg.Add(2)
 			go func() {
 				defer wg.Done()
+				defer func() { pa = recover() != nil }()
 				<-start
-				v, ok := cc.Get(k)
-				get = [3]int{v.Tag, v.Size, b2i(ok)}
+				ra = call(pr[0], va)
 			}()
 			go func() {
 				defer wg.Done()
+				defer func() { pb = recover() != nil }()
 				<-start
-				for s := 0; s < (i/4)%3*7; s++ { // a few different head starts
+				for s := 0; s < (i/12)%3*7; s++ { // a few different head starts
 					_ = s * s
 				}
-				switch racer {
-				case "remove":
-					rres = b2i(cc.Remove(k))
-				case "put":
-					rres = b2i(cc.Put(k, cv{v1, 1}))
-				case "clear":
-					cc.Clear()
-				case "evict":
-					rres = b2i(cc.Put(k2, cv{v1, 1}))
-				}
+				rb = call(pr[1], vb)
 			}()
 			close(start)
 			wg.Wait()
+			if pa || pb {
+				panic("a call of the duel panicked")
+			}
 			v, ok := cc.Get(k)
-			ev["get"], ev["rres"] = get, rres
+			ev["ra"], ev["rb"] = ra, rb
 			ev["get2"] = [3]int{v.Tag, v.Size, b2i(ok)}
 			ev["has2"] = cc.Has(k)
 			ev["len2"], ev["size2"] = cc.Len(), int(cc.Size())
